@@ -61,7 +61,12 @@ def show_las(las, with_engine=False):
         else:
             cust += k + FS + "I" + FS + show_items(sec) + RS
     out.append(cust)
-    out.append("".join("".join(show_cell(x) + FS for x in c.data) + IS for c in las.curves))
+    def col(c):
+        import numpy as np
+        if np.ndim(c.data) != 1:        # not a one-dimensional array: shown as its shape (never equal to a model column)
+            return "shape%r" % (np.shape(c.data),) + FS
+        return "".join(show_cell(x) + FS for x in c.data)
+    out.append("".join(col(c) + IS for c in las.curves))
     if with_engine:
         tr = getattr(las, "_verif_engine_trace", None)
         out.append("T" if (tr and tr[-1] == "numpy") else "F")
